@@ -169,6 +169,10 @@ pub fn generate(g: &mut Gen, thorough: bool) {
         }
         case(g, "plain", def, "F", worked, kept, &pts, &cl, "gridshift-fwd", false);
         case(g, "plain", def, "I", worked, kept, &pts, &cl, "gridshift-inv", false);
+        let grids = super::shipped_grids_of(def);
+        for dir in ["F", "I"] {
+            g.push(super::opg_line(&grids, def, "apply", dir, &data_of(&pts)), "model-gridshift", true);
+        }
     }
     // pipelines with failing steps: the minimum over the steps
     for (a, b) in [("utm zone=32", "utm zone=32 inv"), ("cart", "cart inv"), ("utm zone=32", "noop"), ("gridshift grids=test.datum", "utm zone=32"), ("laea lat_0=52 lon_0=10 inv", "noop"), ("geodesic inv", "noop")] {
